@@ -12,7 +12,13 @@ def handle (input impl : Json) : R Reply := do
   let agreed ← listF checkResult input "agreed"
   let got ← listF (listOf checkResult) impl "reports"
   let want := reports cfg agreed
-  let agree := decide (got = want)
+  -- glue: what comes back to libocr is, report by report and in order, what the encoder was handed; nothing failed
+  let enc ← listOf (listOf checkResult) (fieldD impl "encoded" (.arr #[]))
+  let encOk := match fieldD impl "encoded" .null with | .null => true | _ => decide (enc = got)
+  let nrep ← asNat (fieldD impl "nreports" (.num got.length))
+  let errS := match fieldD impl "err" (.str "") with | .str s => s | _ => "?"
+  let glueOk := encOk && decide (nrep = got.length) && errS == ""
+  let agree := decide (got = want) && glueOk
   let sm := spec cfg agreed want
   let si := spec cfg agreed got
   let tags :=
@@ -22,7 +28,8 @@ def handle (input impl : Json) : R Reply := do
     (if want.any (fun r => decide (r.length = cfg.batch)) then ["full-batch"] else []) ++
     (if decide (cfg.overhead = 300000) || decide (cfg.gasLimit = 5300000) then ["config-default-applied"] else [])
   pure { agree := agree, specModel := sm, specImpl := si,
-         diff := if agree then "" else s!"model={want.map (·.map showResult)} impl={got.map (·.map showResult)}",
+         diff := if agree then "" else if !glueOk then s!"returned reports ({nrep}) differ from what the encoder was handed, or Reports failed: err={errS} encoded={enc.map (·.map showResult)} returned={got.map (·.map showResult)}"
+                 else s!"model={want.map (·.map showResult)} impl={got.map (·.map showResult)}",
          fail := if si then "" else explain cfg agreed got,
          nontrivial := decide (agreed.length ≥ 2), tags := tags }
 
